@@ -50,7 +50,7 @@ func Load(cfg LoadConfig) (*Program, error) {
 		Dir:        cfg.RepoDir,
 		Overlay:    overlay,
 		BuildFlags: []string{"-tags=" + strings.Join(cfg.BuildTags, ",")},
-		Env:        append(os.Environ(), "GOFLAGS=-mod=mod", "GOPROXY=off", "GOSUMDB=off", "GOTOOLCHAIN=local", "CGO_ENABLED=0"),
+		Env:        append(os.Environ(), "GOFLAGS=-mod=readonly", "GOPROXY=off", "GOSUMDB=off", "GOTOOLCHAIN=local", "CGO_ENABLED=0"),
 	}
 	initial, err := packages.Load(pcfg, cfg.Patterns...)
 	if err != nil {
